@@ -258,6 +258,84 @@ theorem PRoot_of_NRoot {t : Expr} (h : NRoot t = true) (hb : hasBadPattern t = f
       ⟨anyNodeL_false h1.2 c hc, anyNodeL_false h2.2 c hc, anyNodeL_false h3.2 c hc⟩
   | _ => simp [NRoot] at h
 
+/-! ### Conversely: a printable tree contains none of the three patterns -/
+
+theorem anyNodeL_of_all {p : Expr → Bool} : ∀ {cs : List Expr}, (∀ c ∈ cs, anyNode p c = false) → anyNodeL p cs = false
+  | [], _ => rfl
+  | c :: cs, h => by
+    simp only [anyNodeL, Bool.or_eq_false_iff]
+    exact ⟨h c (by simp), anyNodeL_of_all (fun c' hc' => h c' (by simp [hc']))⟩
+
+mutual
+theorem noBad_of_PT : ∀ (x : Expr) (inBr al : Bool), PT inBr al x = true → NoBad x
+  | .axis .., _, _, _ => ⟨rfl, rfl, rfl⟩
+  | .flat i b e, inBr, _, h => by
+    simp only [PT, Bool.and_eq_true, Bool.not_eq_true'] at h
+    obtain ⟨h1, h2, h3⟩ := noBad_of_PT i inBr true h.2
+    refine ⟨by simp only [anyNode, h1]; rfl, by simp only [anyNode, h2]; rfl, ?_⟩
+    simp only [anyNode, h3, Bool.or_false]
+    cases i <;> first | rfl | (simp [Expr.isConcat] at h)
+  | .brackets i b e, _, _, h => by
+    simp only [PT, Bool.and_eq_true] at h
+    obtain ⟨h1, h2, h3⟩ := noBad_of_PT i true true h.2
+    exact ⟨by simp only [anyNode, h1]; rfl, by simp only [anyNode, h2]; rfl, by simp only [anyNode, h3]; rfl⟩
+  | .ellipsis i d b e, inBr, _, h => by
+    simp only [PT, Bool.or_eq_true, Bool.and_eq_true, Bool.not_eq_true'] at h
+    rcases h with h | h
+    · cases i with
+      | axis n v bi ei => exact ⟨rfl, rfl, rfl⟩
+      | _ => simp [isAnonAxisNone] at h
+    · obtain ⟨h1, h2, h3⟩ := noBad_of_PT i inBr false h.2
+      refine ⟨?_, ?_, by simp only [anyNode, h3]; rfl⟩
+      · simp only [anyNode, h1, Bool.or_false]
+        cases i <;> first | rfl | (simp [PT] at h)
+      · simp only [anyNode, h2, Bool.or_false]
+        cases i with
+        | ellipsis j dj bj ej =>
+          have : isAnonAxisNone j = true := by
+            simpa [ellOperand, isEllAnon, Expr.isAxis, Expr.isFlat, Expr.isBrackets, Expr.isConcat] using h.1.2
+          simp [patEllEll, this]
+        | _ => rfl
+  | .concat cs b e, inBr, _, h => by
+    simp only [PT, Bool.and_eq_true] at h
+    obtain ⟨h1, h2, h3⟩ := noBadL_of_PTL cs inBr h.2
+    exact ⟨by simp only [anyNode, h1]; rfl, by simp only [anyNode, h2]; rfl, by simp only [anyNode, h3]; rfl⟩
+  | .list cs b e, inBr, _, h => by
+    simp only [PT, Bool.and_eq_true] at h
+    obtain ⟨h1, h2, h3⟩ := noBadL_of_PTL cs inBr h.2
+    exact ⟨by simp only [anyNode, h1]; rfl, by simp only [anyNode, h2]; rfl, by simp only [anyNode, h3]; rfl⟩
+  | .args .., _, _, h => by simp [PT] at h
+  | .op .., _, _, h => by simp [PT] at h
+theorem noBadL_of_PTL : ∀ (cs : List Expr) (inBr : Bool), PTL inBr cs = true → NoBadL cs
+  | [], _, _ => ⟨rfl, rfl, rfl⟩
+  | c :: cs, inBr, h => by
+    simp only [PTL, Bool.and_eq_true] at h
+    obtain ⟨a1, a2, a3⟩ := noBad_of_PT c inBr false h.1
+    obtain ⟨b1, b2, b3⟩ := noBadL_of_PTL cs inBr h.2
+    exact ⟨by simp only [anyNodeL, a1, b1]; rfl, by simp only [anyNodeL, a2, b2]; rfl, by simp only [anyNodeL, a3, b3]; rfl⟩
+end
+
+/-- A `PRoot` tree contains none of the three patterns. -/
+theorem noBad_of_PRoot {t : Expr} (h : PRoot t = true) : hasBadPattern t = false := by
+  cases t with
+  | op cs b e =>
+    simp only [PRoot, Bool.and_eq_true, List.all_eq_true] at h
+    have hall : ∀ c ∈ cs, NoBad c := by
+      intro c hc
+      have hp := h.2 c hc
+      cases c with
+      | args as b' e' =>
+        simp only [PArgs, Bool.and_eq_true, List.all_eq_true] at hp
+        have hin : ∀ a ∈ as, NoBad a := fun a ha => noBad_of_PT a false true (hp.2 a ha)
+        exact ⟨by simp only [anyNode, anyNodeL_of_all (fun a ha => (hin a ha).1)]; rfl,
+          by simp only [anyNode, anyNodeL_of_all (fun a ha => (hin a ha).2.1)]; rfl,
+          by simp only [anyNode, anyNodeL_of_all (fun a ha => (hin a ha).2.2)]; rfl⟩
+      | _ => simp [PArgs] at hp
+    simp only [hasBadPattern, anyNode, anyNodeL_of_all (fun c hc => (hall c hc).1),
+      anyNodeL_of_all (fun c hc => (hall c hc).2.1), anyNodeL_of_all (fun c hc => (hall c hc).2.2)]
+    rfl
+  | _ => simp [PRoot] at h
+
 end NF
 
 mutual
@@ -283,5 +361,21 @@ theorem printable_of_parseOp (text : Str) (t : Expr) (h : parseOp text = .ok t) 
   simp only [Excluded] at hx
   simp only [Printable, Bool.and_eq_true, List.isEmpty_iff]
   exact ⟨PRoot_of_NRoot hroot hx, hconf⟩
+
+open NF in
+/-- On the results of `parseOp`, `Printable` is exactly the complement of `Excluded`. -/
+theorem printable_iff_not_excluded (text : Str) (t : Expr) (h : parseOp text = .ok t) :
+    Printable t = !Excluded t := by
+  cases hx : Excluded t with
+  | false => simpa using printable_of_parseOp text t h hx
+  | true =>
+    cases hp : Printable t with
+    | false => rfl
+    | true =>
+      simp only [Printable, Bool.and_eq_true] at hp
+      have := noBad_of_PRoot hp.1
+      simp only [Excluded] at hx
+      rw [hx] at this
+      cases this
 
 end Einx.Notation
